@@ -54,6 +54,15 @@ def make_plan(seed: int, tier: str, opts: dict) -> dict:
                    for j in range(r.choice([1, 2]))]
             for ep in eps:
                 ep["slow_user"] = None
+    if not race and r.random() < opts.get("lookahead_p", 0.06):
+        # look-ahead boundary family (DESIGN 3.1 rule 9): the deterministic chain at the measured limit of the runtime's 10-step look-ahead
+        # (x = 9.2 starts on the current tree, x = 10.2 cannot); one tick less look-ahead and these graphs never start
+        R_, r_ = r.choice([(24.0, 8.0), (30.0, 10.0)])
+        spec = sp.lookahead_chain(R_, r_, 4, 1.0, adv=r.random() < 0.5)
+        spec["lookahead_bound"] = 9.25
+        assert sp.in_S(spec) is None, sp.in_S(spec)
+        wall = False
+        eps = [driver.gen_episode(r, j, menu=MENU, open_loop=False, nsteps=r.randint(2, 8), endings=("stop",), override_p=0.0) for j in range(r.choice([1, 2]))]
     eps[-1]["ending"] = r.choice(["stop", "stop2"])
     for j in range(len(eps) - 1):
         # an episode left running ("none") must be followed by reset(): run() without a stop() continues the old episode (API contract)
